@@ -250,8 +250,13 @@ impl Scenario for ParamFile {
         ctx.count("fault:missing-directory");
         check_reload(ctx, "missing directory", &reload_inproc(&dir.0.join("no-such-directory")), None)?;
         let mut last: Option<(Vec<u8>, &PfParams)> = None;
-        for p in &plan.dumps {
+        for (di, p) in plan.dumps.iter().enumerate() {
             let e = reference_bytes(p);
+            if di == 0 && plan.dumps.len() >= 2 {
+                // a dump that cannot succeed (directory does not exist) right before a real one must not influence it
+                ctx.count("fault:failed-dump-into-missing-directory-first");
+                let _ = caught(|| p.params().dump_json(&dir.0.join("no-such-directory")));
+            }
             ctx.ev("dump", e.len() as u64);
             ctx.sched.add(p.b_bits ^ p.a_bits.rotate_left(17) ^ p.m.rotate_left(31) ^ p.q.rotate_left(47));
             if let Some((prev, _)) = &last {
@@ -424,7 +429,7 @@ pub fn child_main(args: &[String]) -> i32 {
 fn shim_path() -> PathBuf {
     let p = crate::verif_root().join("shim").join("simfs.so");
     if !p.exists() {
-        eprintln!("HARNESS-ERROR: {} missing (run ./check setup)", p.display());
+        crate::errln!("HARNESS-ERROR: {} missing (run ./check setup)", p.display());
         std::process::exit(2);
     }
     p
@@ -563,7 +568,7 @@ impl Scenario for ParamFileShim {
                         Some(137) => {}
                         Some(0) => ctx.count("crash-point-not-reached-dump-completed"),
                         other => {
-                            eprintln!("HARNESS-ERROR: dump child ended with status {:?} (crash point {})", other, k);
+                            crate::errln!("HARNESS-ERROR: dump child ended with status {:?} (crash point {})", other, k);
                             std::process::exit(2);
                         }
                     }
